@@ -8,16 +8,26 @@ var commonAssume = []string{
 
 var refluaAssume = "the reference Lua front end /verif/reflua (lexer, parser, binder; written from the Lua 5.4 manual) is trusted; no Lua interpreter exists in the sandbox to cross-check it"
 
+// tiers: rapid checks per shard (16 shards) for quick / thorough, native fuzz seconds (thorough)
+var tiers = map[string][3]int{
+	"C02": {1500, 12000, 0},
+	"C03": {8000, 150000, 240},
+}
+
+func tierOf(id string, thorough bool) tierCfg {
+	t := tiers[id]
+	if thorough {
+		return tierCfg{Shards: 16, Checks: t[1], FuzzSecs: t[2]}
+	}
+	return tierCfg{Shards: 16, Checks: t[0]}
+}
+
 func init() {
 	props["C02"] = propCfg{
-		Quick:       tierCfg{Shards: 16, Checks: 400},
-		Thorough:    tierCfg{Shards: 16, Checks: 12000},
 		Rule:        "rapid generates an initial document (0-12 lines of Lua-like fragments over ASCII, 2-byte, 3-byte and astral characters, LF/CRLF/CR line ends, optional missing final newline) and 1-20 steps (incremental didChange batches of 1-3 edits positioned in the text produced by the earlier ones, full-text didChange, save = disk write + didSave, close + reopen); after every step the server's cached bytes (verif accessor) must equal a reference text buffer written from the LSP specification. Non-trivial = a sequence with an incremental edit on a document of >= 2 lines with a non-ASCII character or CR before the edit position; distinct by hash of the whole case.",
 		Assumptions: append([]string{"reference text buffer: lines end at LF, CRLF or CR; characters are UTF-16 code units; a character beyond the line end clamps to the line end"}, commonAssume...),
 	}
 	props["C03"] = propCfg{
-		Quick:       tierCfg{Shards: 16, Checks: 2500},
-		Thorough:    tierCfg{Shards: 16, Checks: 150000, FuzzSecs: 240},
 		Rule:        "luagen generates programs valid by construction (all statement kinds, all operators, attribs, goto/labels, method definitions, varargs, every numeral and string form incl. hex floats, huge exponents, LL/ULL, \\z, \\u{}, long brackets of level 0-2) and, for two thirds of the cases, one single-token mutation (delete, duplicate, swap, substitute by keyword/operator); rendered with a layout generator (spaces, tabs, \\v, \\f, LF/CRLF/CR, short and long comments with ASCII/BMP/astral text, optional shebang). Oracle: the reference recogniser reflua classifies the text valid / invalid / context-only; the parser must report >=1 error iff invalid and 0 errors if valid; 5% of the cases also go through a full LSP session (type-1 diagnostics iff parser errors). Non-trivial: a valid text with >= 8 tokens and >= 1 rare feature, or an invalid text that is a single-token mutant of a valid one; distinct by text.",
 		Assumptions: append([]string{refluaAssume, "context-only programs (break outside loop, goto without label, ... outside vararg, unknown attribute) and texts with bytes >= 0x80 outside strings/comments are don't-care"}, commonAssume...),
 	}
